@@ -1119,7 +1119,7 @@ fn oracle_append(calls: &[String], srcs: &[Vec<u8>]) -> Vec<OracleFailure> {
         let line_key = calls.join(";");
         f.extend(c02_checks(&line_key, calls, srcs, &ro, live, before.0.len(), &want_comment));
     }
-    let after = match catch({ let bytes = bytes.clone(); move || listing(&bytes) }) {
+    let mut after = match catch({ let bytes = bytes.clone(); move || listing(&bytes) }) {
         Ok(Ok(l)) => l,
         Ok(Err(e)) => {
             if stale > 0 { f.push(OracleFailure { what: format!("D14 append-leaves-stale-tail: the rewritten archive ends {stale} bytes before the old end of file and the stale tail makes it unreadable ({e})") }); }
@@ -1128,6 +1128,19 @@ fn oracle_append(calls: &[String], srcs: &[Vec<u8>]) -> Vec<OracleFailure> {
         }
         Err(_) => { f.push(OracleFailure { what: "append: panic while reading the result".into() }); return f; }
     };
+    // D14, second symptom: the stale tail holds the COMPLETE old end record, the reader finds it first and the
+    // result opens - as the OLD directory (old comment, old entry list).  The defect is the stale tail and nothing
+    // else exactly when the LIVE part (what the writer wrote) reads differently from the whole sink; everything below
+    // is then judged on the live part, so that any OTHER defect is still reported under its own message.
+    if stale > 0 {
+        let live: Vec<u8> = bytes[..(ro.end_pos.unwrap_or(bytes.len() as u64) as usize).min(bytes.len())].to_vec();
+        if let Ok(Ok(l)) = catch(move || listing(&live)) {
+            if l != after {
+                f.push(OracleFailure { what: format!("D14 append-leaves-stale-tail: the rewritten archive ends {stale} bytes before the old end of file and the stale tail holds a complete old end record, which the reader finds first: the result reads as the OLD directory ({} entries, comment of {} bytes) instead of the rewritten one ({} entries, comment of {} bytes)", after.0.len(), after.1.len(), l.0.len(), l.1.len()) });
+                after = l;
+            }
+        }
+    }
     // encrypted base entries cannot be listed without a password: their content field is an error class on both sides
     if after.0.len() != before.0.len() + ro.expect.len() {
         f.push(OracleFailure { what: format!("append: {} entries before, {} creations succeeded, {} entries after", before.0.len(), ro.expect.len(), after.0.len()) });
